@@ -96,6 +96,10 @@ def audit_patches(kind, names, matrix, suite):
         else:
             meta = json.load(open(os.path.join(d, name, "meta.json")))
             expect = [meta["property"]] if isinstance(meta["property"], str) else list(meta["property"])
+        if expect == ["equivalent"]:
+            results[name] = {"expect": expect, "equivalent": True, "checks": {}, "caught_by": [], "machinery_errors": [], "detected": None}
+            json.dump(results, open(resfile, "w"), indent=1, sort_keys=True)
+            continue
         try:
             scratch = make_scratch(patch)
         except RuntimeError as e:
